@@ -135,7 +135,12 @@ EXPECTED = [('C06',
   'power',
   ['x1', 'x2', '**kwargs'],
   ['x1 = numpoly.aspolynomial(x1)',
-   'x2 = numpoly.aspolynomial(x2).tonumpy().astype(int)',
+   'x2 = numpoly.aspolynomial(x2).tonumpy()',
+   'if numpy.any(x2 < 0) or numpy.any(x2 != numpy.floor(x2)):\n'
+   '    if not x1.isconstant():\n'
+   "        raise numpoly.FeatureNotSupported('only non-negative integer powers of polynomials are supported.')\n"
+   '    return numpoly.polynomial(numpy.power(x1.tonumpy(), x2))',
+   'x2 = x2.astype(int)',
    'if not x2.shape:\n'
    '    v0 = numpoly.ndpoly.from_attributes([(0,)], [numpy.ones(x1.shape, dtype=x1._dtype)], x1.names[:1])\n'
    '    for v1 in range(x2.item()):\n'
